@@ -622,7 +622,9 @@ def judge_code_task(tsk, name, own, recs, ent, files, res):
         if bad:
             viol.append(('output-differs', 'log-differs',
                          dict(bad, task=name, kind=tsk['via'])))
-    if not own['raised']:
+    if True:
+        # (also when a command could not be started: the task fails, what it
+        # knows about itself -- its log, its directory -- is still recorded)
         key = 'checkout_log' if tsk['via'] == 'checkout' else 'build_log'
         want = os.path.join(res.log_root, name + '.log')
         got = ent.get(key)
